@@ -16,13 +16,16 @@ type G struct {
 	elem  []string
 	// NoCalls suppresses environment calls (for rewrites that duplicate operands)
 	NoCalls bool
-	// Arith restricts to total arithmetic (no division) when set
-	Budget bool
+	// Chaos is the probability (in 1/1000) of substituting a sub-expression of a random other type
+	Chaos int
 }
 
 func (g *G) pick(xs ...string) string { return xs[g.r.Intn(len(xs))] }
 
 func (g *G) Expr(t string, d int) string {
+	if g.Chaos > 0 && g.r.Intn(1000) < g.Chaos {
+		t = genTypes[g.r.Intn(len(genTypes))]
+	}
 	if d <= 0 {
 		return g.leaf(t)
 	}
